@@ -9,14 +9,15 @@ Open Scope N_scope.
    earlier in the same program: static_ok [] p *)
 Definition disjoint_job (j : job) : Prop :=
   match j with
-  | JEval p | JCheck p => static_ok [] p = true
+  | JEval p => static_ok [] p = true
+  | JCheck _ => True          (* any program may be checked *)
   | JCall _ => False
   end.
 
 Definition own_op (t : N) (o : op) : Prop :=
   match o with
   | OSet s _ | OGet s => fst s = t
-  | OCompile p | OCheck p => static_ok [] p = true
+  | OCompile p => static_ok [] p = true
   | _ => True
   end.
 
@@ -76,7 +77,7 @@ Proof.
   destruct (threads_of_spec g0 js 0 t) as [H|(j & Hin & H)]; rewrite H; simpl; [constructor|].
   pose proof (Hd j Hin) as Hj. destruct j as [p|p|p]; simpl in *.
   - repeat constructor. exact Hj.
-  - repeat constructor. exact Hj.
+  - repeat constructor.
   - contradiction.
 Qed.
 
@@ -122,6 +123,8 @@ Proof.
     simpl. constructor; [first [exact Ho|reflexivity]|exact Htr].
   - destruct (memN m (c_mods c)); inv_some; (split; [eapply Hframe; simpl; eauto|]);
       try (constructor; [exact I|exact Hr]); simpl; constructor; try exact Htr; exact I.
+  - inv_some. split; [eapply Hframe; simpl; eauto|].
+    simpl. constructor; [exact I|exact Htr].
   - inv_some. split; [eapply Hframe; simpl; eauto|].
     simpl. constructor; [exact I|exact Htr].
 Qed.
